@@ -365,6 +365,12 @@ Section SchedC.
     | e :: r => match step s e with Some s' => run s' r | None => None end
     end.
 
+  (* a deterministic round-robin scheduler, used for examples and by drivers *)
+  Definition rr_round (order : list tid) (s : state) : state :=
+    fold_left (fun st e => match step st e with Some st' => st' | None => st end) order s.
+  Fixpoint rr (fuel : nat) (order : list tid) (s : state) : state :=
+    match fuel with O => s | S f => rr f order (rr_round order s) end.
+
   Inductive Reach (s0 : state) : state -> Prop :=
   | Reach_init : Reach s0 s0
   | Reach_step : forall s e s', Reach s0 s -> step s e = Some s' -> Reach s0 s'.
